@@ -158,7 +158,7 @@ struct vyukov_hash_map<Key, Value, Policies...>::unlocker {
   ~unlocker() {
     if (enabled) {
       assert(locked_bucket.state.load().is_locked());
-      locked_bucket.state.store(state, std::memory_order_relaxed);
+      locked_bucket.state.store(state, std::memory_order_release);
     }
   }
   void unlock(bucket_state new_state, std::memory_order order) {
@@ -249,7 +249,9 @@ retry:
   for (std::uint32_t i = 0; i != item_count; ++i) {
     if (traits::template compare_key<AcquireAccessor>(bucket.key[i], bucket.value[i], key, h, acc)) {
       callback(std::move(acc), bucket.value[i]);
-      unlocker.unlock(state, std::memory_order_relaxed);
+      // release is required even though nothing has changed: the next thread that locks this bucket
+      // synchronizes with this store only, and it has to see everything earlier lock holders did.
+      unlocker.unlock(state, std::memory_order_release);
       return false;
     }
   }
@@ -269,7 +271,9 @@ retry:
        extension = extension->next.load(std::memory_order_relaxed)) {
     if (traits::template compare_key<AcquireAccessor>(extension->key, extension->value, key, h, acc)) {
       callback(std::move(acc), extension->value);
-      unlocker.unlock(state, std::memory_order_relaxed);
+      // release is required even though nothing has changed: the next thread that locks this bucket
+      // synchronizes with this store only, and it has to see everything earlier lock holders did.
+      unlocker.unlock(state, std::memory_order_release);
       return false;
     }
   }
@@ -421,7 +425,9 @@ restart:
   // key not found
 
   // release the bucket lock
-  unlocker.unlock(state, std::memory_order_relaxed);
+  // release is required even though nothing has changed: the next thread that locks this bucket
+  // synchronizes with this store only, and it has to see everything earlier lock holders did.
+  unlocker.unlock(state, std::memory_order_release);
 
   return false;
 }
